@@ -14,15 +14,11 @@ def main():
     ap.add_argument("--tier", default=os.environ.get("VERIF_TIER", "quick"))
     ap.add_argument("--replay")
     ap.add_argument("--filter")
-    ap.add_argument("--selftest", action="store_true")
     ap.add_argument("--nproc", type=int)
     a = ap.parse_args()
     seed = int(os.environ.get("VERIF_SEED", "0") or 0)
     prop = a.prop.upper()
     hname = HARNESS_OF.get(prop, prop.lower())
-    if a.selftest:
-        from symx import selftest
-        sys.exit(selftest.run(prop, hname, a.filter))
     from symx import driver
     sys.exit(driver.run_check(prop, hname, a.tier, seed, replay_path=a.replay, nproc=a.nproc, jobs_filter=a.filter))
 
